@@ -238,6 +238,14 @@ def link_harness(cdir, name, h):
     return out
 
 
+def _tmpenv():
+    """CBMC writes its SMT2 problem/result files to TMPDIR and leaves them behind when it is killed
+    (time-out, lost race): every run gets its own directory, removed afterwards"""
+    import tempfile
+    d = tempfile.mkdtemp(prefix='verif-cbmc-', dir=SCRATCH_ROOT)
+    return d, dict(os.environ, TMPDIR=d)
+
+
 def _limits():
     resource.setrlimit(resource.RLIMIT_AS, (MEM_LIMIT, MEM_LIMIT))
     os.setsid()
@@ -252,8 +260,9 @@ def run_cbmc(goto, backend, unwind, timeout, extra=()):
     if unwind:
         cmd += ['--unwind', str(unwind), '--unwinding-assertions']
     t0 = time.time()
+    tmpd, tenv = _tmpenv()
     try:
-        p = subprocess.Popen(cmd, stdout=subprocess.PIPE, stderr=subprocess.STDOUT, text=True, preexec_fn=_limits)
+        p = subprocess.Popen(cmd, stdout=subprocess.PIPE, stderr=subprocess.STDOUT, text=True, preexec_fn=_limits, env=tenv)
         try:
             out, _ = p.communicate(timeout=timeout)
         except subprocess.TimeoutExpired:
@@ -265,6 +274,8 @@ def run_cbmc(goto, backend, unwind, timeout, extra=()):
             return {'status': 'timeout', 'time': time.time() - t0, 'out': '', 'backend': backend}
     except Exception as e:  # pragma: no cover
         return {'status': 'error', 'time': time.time() - t0, 'out': str(e), 'backend': backend}
+    finally:
+        shutil.rmtree(tmpd, ignore_errors=True)
     dt = time.time() - t0
     res = {'time': dt, 'out': out, 'backend': backend, 'rc': p.returncode}
     if 'VERIFICATION SUCCESSFUL' in out or 'VERIFICATION FAILED' in out:
@@ -279,6 +290,7 @@ def race_cbmc(goto, backends, unwind, timeout):
     import threading
     procs = {}
     results = {}
+    tmpdirs = []
     lock = threading.Lock()
     done_evt = threading.Event()
     t0 = time.time()
@@ -287,8 +299,10 @@ def race_cbmc(goto, backends, unwind, timeout):
         cmd = ['cbmc', goto] + CBMC_FLAGS + BACKENDS[be]
         if unwind:
             cmd += ['--unwind', str(unwind), '--unwinding-assertions']
+        tmpd, tenv = _tmpenv()
+        tmpdirs.append(tmpd)
         try:
-            p = subprocess.Popen(cmd, stdout=subprocess.PIPE, stderr=subprocess.STDOUT, text=True, preexec_fn=_limits)
+            p = subprocess.Popen(cmd, stdout=subprocess.PIPE, stderr=subprocess.STDOUT, text=True, preexec_fn=_limits, env=tenv)
         except Exception as e:  # pragma: no cover
             results[be] = {'status': 'error', 'time': 0.0, 'out': str(e), 'backend': be}
             return
@@ -331,6 +345,8 @@ def race_cbmc(goto, backends, unwind, timeout):
                         pass
     for t in ths:
         t.join()
+    for d in tmpdirs:
+        shutil.rmtree(d, ignore_errors=True)
     return {'winner': winner, 'all': [results[be] for be in backends if be in results]}
 
 
